@@ -147,6 +147,13 @@ def catalogue():
     add("definition-empty-modifier", "pair", sub(P, "sum(as.bornmayer 500.0 0.25, as.constant 1.0)", "sum()"), "cfg", "modifier without arguments")
     add("definition-trailing-garbage", "pair", sub(P, "Si-O : as.buck 1000.0 0.3 32.0", "Si-O : as.buck 1000.0 0.3 32.0 )"), "cfg", "trailing garbage")
     add("definition-nonnumeric-param", "pair", sub(P, "Si-O : as.buck 1000.0 0.3 32.0", "Si-O : as.buck 1000.0 rho 32.0"), "cfg", "non-numeric parameter")
+    # legal spellings of the same numbers (everything float() and the reference manual's grammar read): without the leading zero, with an explicit sign, with exponents,
+    # with a trailing point (round-10 seed C16_15: a number pattern that wants a digit before the point)
+    for tag, spelt in (("no-leading-zero", "as.buck 1000.0 .3 32.0"), ("explicit-sign", "as.buck +1000.0 +0.3 +32.0"), ("exponent", "as.buck 1e3 3e-1 3.2E+1"),
+                       ("trailing-point", "as.buck 1000. 0.3 32."), ("integer", "as.buck 1000 0.3 32")):
+        add("number-spelling-" + tag, "pair", sub(P, "Si-O : as.buck 1000.0 0.3 32.0", "Si-O : " + spelt), "ok", "parameters spelt as %r" % spelt)
+    for tag, spelt in (("no-leading-zero", ">=.5"), ("explicit-sign", ">=+2.0"), ("exponent", ">=2e0"), ("trailing-point", ">=2.")):
+        add("range-start-spelling-" + tag, "pair", sub(P, ">=2.0 as.zero", spelt + " as.zero"), "ok", "a range start spelt as %r" % spelt)
     add("polynomial-no-coefficients", "pair", sub(P, "Si-O : as.buck 1000.0 0.3 32.0", "Si-O : as.polynomial"), "ok", "as.polynomial without coefficients")
     add("pow-one-argument", "pair", sub(P, "Si-O : as.buck 1000.0 0.3 32.0", "Si-O : pow(as.constant 2.0)"), "ok", "pow() with a single argument")
     # ---- spline
